@@ -28,6 +28,7 @@ MUTS = {
     'b-clears-types': ('stone/cli.py', "                    namespace = api.namespaces[namespace_name]\n                    namespace.routes = []", "                    namespace = api.namespaces[namespace_name]\n                    namespace.data_types = []\n                    namespace.routes = []"),
     'rpar-optional': ('stone/cli_helpers.py', "        'expr : LPAR expr RPAR'\n        p[0] = p[2]", "        '''expr : LPAR expr RPAR\n                | LPAR expr'''\n        p[0] = p[2]"),
     'add_route-any-version': ('stone/ir/api.py', "        if route.version == 1:\n            self.route_by_name[route.name] = route", "        self.route_by_name[route.name] = route"),
+    'a-prunes-own-fields-only': ('stone/cli.py', "        for namespace in api.namespaces.values():\n            for route in namespace.routes:\n                for k in list(route.attrs.keys()):\n                    if k not in attrs:\n                        del route.attrs[k]", "        hidden_attrs = [field.name for field in api.route_schema.fields\n                        if field.name not in attrs]\n        for namespace in api.namespaces.values():\n            for route in namespace.routes:\n                for k in hidden_attrs:\n                    route.attrs.pop(k, None)"),
     'filter-negated': ('stone/cli.py', "                    if route_filter.eval(route):", "                    if not route_filter.eval(route):"),
 }
 
